@@ -83,6 +83,8 @@ PVCall ==
          \* pressures are compared relative to the larger of the pressure and 1 % of the bulk modulus of the liquid (as in Equilibrium.tla)
          PS == IF E.status = "Ok" THEN FAdd(FMax(FAbs(E.pv), FAbs(E.pl)), FMul("1e-2", E.K)) ELSE "1"
      IN /\ (asModelled => Report("C04.pure_result_is_returned", <<info, E.status, result, l>>, E.status = result))
+        \* the success clause: a cold start on a shipped PC-SAFT record between 0.45 and 0.99 T_c finds the equilibrium
+        /\ (E.expect => Report("C04.pure_found_at_temperature", <<E.case, E.grid, E.status, l>>, E.status = "Ok"))
         /\ ((asModelled /\ result = "Ok") => Report("C04.pure_ok_means_converged", <<info, conv, trivial, i, l>>, conv /\ ~trivial /\ i >= 1))
         /\ (E.status = "Ok" =>
               /\ Report("C04.phases_share_temperature", <<info, E.Tv, E.Tl, l>>, E.Tv = E.Tl)
@@ -97,9 +99,10 @@ PVCall ==
                     Report("C12.pure_independent_of_initial_state", <<info, <<ref[key].T, ref[key].p, ref[key].rv, ref[key].rl>>, <<E.Tv, E.pv, E.rhov, E.rhol>>, l>>,
                            /\ FClose(E.Tv, ref[key].T, "1e-8", FAbs(E.Tv), "0") /\ FClose(E.pv, ref[key].p, "1e-7", PS, "0")
                            /\ FClose(E.rhov, ref[key].rv, "1e-7", FAbs(E.rhov), "0") /\ FClose(E.rhol, ref[key].rl, "1e-7", FAbs(E.rhol), "0"))))
-        /\ ref' = (IF E.status = "Ok" /\ default /\ key \notin DOMAIN ref THEN ref @@ (key :> [T |-> E.Tv, p |-> E.pv, rv |-> E.rhov, rl |-> E.rhol]) ELSE ref)
+        /\ ref' = (IF E.status = "Ok" /\ default /\ ~E.expect /\ key \notin DOMAIN ref THEN ref @@ (key :> [T |-> E.Tv, p |-> E.pv, rv |-> E.rhov, rl |-> E.rhol]) ELSE ref)
         /\ cnt' = BumpAll(cnt, {"pv_calls", "pv_status:" \o E.status} \cup (IF asModelled /\ E.status = result THEN {"pv_as_modelled"} ELSE {"pv_not_as_modelled"})
                       \cup (IF E.status = "Ok" /\ spec = "T" THEN {"pv_ok_from:" \o stage} ELSE {})
+                      \cup (IF E.expect THEN {"pv_success_clause_calls"} ELSE {})
                       \cup (IF E.status = "Ok" /\ default /\ key \in DOMAIN ref THEN {"pv_compared_with_first_result"} ELSE {}))
   /\ UNCHANGED <<pvvars, sync>>
 
